@@ -57,7 +57,7 @@ def list_def(node, xs):
     if name == 'start_with':
         if not xs:
             return []
-        return list(node[1]) + list(xs)
+        return list(progs.padding_of(node)) + list(xs)
     if name == 'batch':
         n = node[1]
         return [list(xs[i:i + n]) for i in range(0, len(xs), n)]
@@ -116,6 +116,11 @@ def variants():
     yield ['start_with', [7]], mux
     yield ['start_with', [7, None, 8]], mux
     yield ['start_with', []], mux
+    # the padding as another re-iterable container than a list (the documentation's own example passes a tuple)
+    for kind in ('tuple', 'range', 'deque', 'keys', 'nparray'):
+        yield ['start_with', [7, 8], kind], mux
+    yield ['start_with', [], 'tuple'], mux
+    yield ['start_with', [7], 'range'], mux
     for n in (1, 2, 3, 4, 7):
         yield ['batch', n], both
     for k in ('k', 'negk'):
@@ -142,7 +147,7 @@ class C10(Check):
                'rxsci/operators/distinct_until_changed.py', 'rxsci/data/lag.py', 'rxsci/data/pad.py', 'rxsci/operators/start_with.py',
                'rxsci/data/batch.py', 'rxsci/data/sort.py']
     REQUIRED_TAGS = ['first', 'last', 'take', 'distinct', 'duc', 'lag', 'pad_start', 'pad_end', 'start_with', 'batch', 'sort',
-                     'plain', 'mux', 'group', 'roll', 'split', 'scale', 'numpy-items', 'negative-values', 'empty', 'has-None', 'len-multiple-of-n', 'numpy-typed-parameters', 'two-store-sections'] + PRELUDE_TAGS
+                     'plain', 'mux', 'group', 'roll', 'split', 'scale', 'numpy-items', 'negative-values', 'empty', 'has-None', 'len-multiple-of-n', 'numpy-typed-parameters', 'two-store-sections'] + ['padding-as-' + k for k in ('tuple', 'range', 'deque', 'keys', 'nparray')] + PRELUDE_TAGS
     REQUIRED_OBSERVED = ['sequences_compared']
 
     def generate(self, rng, tier, shard, nshards):
@@ -211,6 +216,8 @@ class C10(Check):
             out.tags.append('numpy-typed-parameters')
         name = node[0]
         out.tags += [name, mode]
+        if name == 'start_with' and len(node) > 2:
+            out.tags.append('padding-as-' + node[2])
         if not seq:
             out.tags.append('empty')
         if None in seq:
